@@ -72,7 +72,7 @@ pub fn mapping_history(rng: &mut Prng, max_ops: usize, light: bool) -> History {
     let native = rng.chance(1, 6);
     let cls = |k: i64| if native { k } else { k % e };
     let n_ops = 1 + rng.below(max_ops as u64) as usize;
-    let mut text = String::new();
+    let mut text = format!("let v_ballast = \"{}\";\n", "b".repeat(1400));
     if native {
         text.push_str("let v_m0 = cast<Mapping<int, int>>(mapping<int>());\n");
     } else {
@@ -230,7 +230,7 @@ pub fn set_history(rng: &mut Prng, max_ops: usize, light: bool) -> History {
     let native = rng.chance(1, 6);
     let cls = |k: i64| if native { k } else { k % e };
     let n_ops = 1 + rng.below(max_ops as u64) as usize;
-    let mut text = String::new();
+    let mut text = format!("let v_ballast = \"{}\";\n", "b".repeat(1400));
     if native {
         text.push_str("let v_s0 = set<int>();\n");
     } else {
@@ -369,6 +369,50 @@ pub fn set_history(rng: &mut Prng, max_ops: usize, light: bool) -> History {
     History { text, expected, e, m, n_ops, kind: if native { "set-native" } else { "set" } }
 }
 
+/// collections large enough that the natives' own allocation pre-flights are points where a
+/// size limit can land (300 elements: every update pre-flights about 2.4 KB)
+pub const BIG_OBS: &[(&str, &str, &str)] = &[
+    ("set", "v_s.discard(7).len()", "299"),
+    ("set", "v_s.discard(7).contains(7)", "false"),
+    ("set", "v_s.remove(8).len()", "299"),
+    ("set", "v_s.add(1000).len()", "301"),
+    ("set", "v_s.discard(5000).len()", "300"),
+    ("set", "(v_s | set<int>().update(range(290, 320))).len()", "320"),
+    ("set", "(v_s - set<int>().update(range(0, 100))).len()", "200"),
+    ("set", "(v_s & set<int>().update(range(250, 400))).len()", "50"),
+    ("set", "(v_s ^ set<int>().update(range(250, 400))).len()", "350"),
+    ("set", "v_s.update(range(295, 310)).len()", "310"),
+    ("map", "v_m.discard(7).len()", "299"),
+    ("map", "v_m.discard(7).contains(7)", "false"),
+    ("map", "v_m.pop(8).len()", "299"),
+    ("map", "v_m.set(1000, 1).len()", "301"),
+    ("map", "v_m.set(7, 1).get(7)", "1"),
+    ("map", "v_m.set_default(7, 1).get(7)", "14"),
+    ("map", "v_m.set_default(1000, 1).len()", "301"),
+    ("map", "v_m.update(v_m.set(2000, 5)).len()", "301"),
+    ("map", "v_m.map_values((v_v: int)->{v_v + 1}).get(3)", "7"),
+    ("map", "v_m.update_from_keys(range(295, 305), (v_k: int)->{0}, (v_k: int, v_v: int)->{v_v}).len()", "305"),
+    ("cset", "v_c.discard(9).len()", "199"),
+    ("cset", "v_c.discard(9).contains(9)", "false"),
+    ("cset", "v_c.add(500).len()", "201"),
+    ("cset", "v_c.remove(10).contains(14)", "true"),
+];
+
+/// one collection large enough that the native's own allocation pre-flight is the largest request
+/// of the program, and one operation on it (so that a size limit can land exactly there)
+pub fn big_collections(idx: usize) -> History {
+    let ballast = "b".repeat(1400);
+    let (which, e, want) = BIG_OBS[idx % BIG_OBS.len()];
+    let mut text = format!("let v_ballast = \"{ballast}\";\n");
+    text.push_str(match which {
+        "set" => "let v_s = set<int>().update(range(300));\n",
+        "map" => "let v_m = mapping<int>().update(range(300).to_generator().map((v_x: int)->{(v_x, v_x * 2)}));\n",
+        _ => "let v_c = set((v_x: int)->{v_x % 4}, (v_a: int, v_b: int)->{v_a == v_b}).update(range(200));\n",
+    });
+    text.push_str(&format!("fn main()->bool{{\n    let v_o0 = display({e});\n    true\n}}\n"));
+    History { text, expected: format!("{want}\n"), e: 0, m: idx as i64, n_ops: 1, kind: "big-collections" }
+}
+
 pub fn make(spec: &JobSpec, ex: &mut Executor, out: &mut JobResult) -> Option<Box<dyn Job>> {
     match spec.kind.as_str() {
         "histories" => {
@@ -408,10 +452,16 @@ pub fn make(spec: &JobSpec, ex: &mut Executor, out: &mut JobResult) -> Option<Bo
             }
             Some(Box::new(HistJob { cases }))
         }
-        "faults" => {
+        "faults" | "big-faults" => {
             // call/size faults inside hash and eq callbacks of one generated history
             let mut rng = Prng::new(spec.seed);
-            let h = if rng.chance(1, 2) { mapping_history(&mut rng, 12, false) } else { set_history(&mut rng, 12, false) };
+            let h = if spec.kind == "big-faults" {
+                big_collections(spec.params.get("obs").and_then(|v| v.as_u64()).unwrap_or(0) as usize)
+            } else if rng.chance(1, 2) {
+                mapping_history(&mut rng, 12, false)
+            } else {
+                set_history(&mut rng, 12, false)
+            };
             let mut sc = Scenario::standard(&h.text, Limits::calibration());
             sc.label = format!("C17 faults {} E={} M={} ops={}", h.kind, h.e, h.m, h.n_ops);
             sc.ops = super::c06::rerun_ops();
